@@ -38,6 +38,13 @@ def generate(rng, n, tier, stats):
             cases.append({'ins': [a], 'ops': [['cum', fam == 'cumprod', rng.random() < 0.3 and dtype == 'f', r, default]]})
         elif fam == 'diff':
             sc = rng.choice(['backward', 'forward', 'centered']); keep = rng.random() < 0.4; k = rng.choice([1, 1, 2, 3])
+            if rng.random() < 0.12:
+                # first difference of a boolean mask (NumPy: elementwise "differs from its neighbour"); with keepaxis the
+                # padded result has to become a float array, booleans have no NaN.  Orders n >= 2 are left out: see DESIGN 10.7
+                a = rand_array(rng, stats=stats, dtype='b', ndim=nd, lens=lens, attrs=rng.random() < 0.5); dtype = 'b'
+                r = a['dims'][i] if isinstance(r, str) else r
+                k = 1; sc = rng.choice(['backward', 'forward']); keep = rng.random() < 0.7
+                stats['diff_of_bool']['keepaxis' if keep else 'shortened'] += 1
             stats['scheme'][sc + ('/keepaxis' if keep else '')] += 1; stats['order_n'][k] += 1
             cases.append({'ins': [a], 'ops': [['diff', r, sc, keep, k]]})
         else:
